@@ -15,6 +15,8 @@ structure DS where
   cur : Screen := Screen.empty
   prev : Option Screen := none
   rs : RState := RState.init.1
+  dpos : Point := ⟨0, 0⟩
+  dlast : Option Nat := none
   term : Term := Term.fresh 1 1 0 (fun _ _ => TCell.blank)
 
 def DS.attrsOf (d : DS) (i : Nat) : Attrs :=
@@ -140,10 +142,16 @@ def step (d : DS) (toks : List String) : DS × String :=
   | ["keep"] => ({ d with prev := some d.cur }, "ok")
   | ["noprev"] => ({ d with prev := none }, "ok")
   | ["diff", px, py, last, isDone, pw] =>
-    match decNat px, decNat py, decLast last, decBool isDone, decNat pw with
+    -- "-" = the value returned by the previous diff (position, last style) / the current width
+    let px := if px == "-" then some d.dpos.x else decNat px
+    let py := if py == "-" then some d.dpos.y else decNat py
+    let last := if last == "-" then some d.dlast else decLast last
+    let pw := if pw == "-" then some d.w else decNat pw
+    match px, py, last, decBool isDone, pw with
     | some px, some py, some last, some isDone, some pw =>
       let o := diff d.env d.cur ⟨px, py⟩ d.prev last isDone pw
-      (d.run o.cmds, s!"{encCmds o.cmds} | {o.pos.x} {o.pos.y} {encLast o.last}")
+      ({ d with dpos := o.pos, dlast := o.last }.run o.cmds,
+       s!"{encCmds o.cmds} | {o.pos.x} {o.pos.y} {encLast o.last}")
     | _, _, _, _, _ => bad
   | ["init"] =>
     let r := RState.init
